@@ -11,7 +11,7 @@ import (
 
 // world without a loaded program: enough for the value domain.
 func testWorld() *World {
-	return &World{remMemo: map[string]*remInfo{}, failSeen: map[string]bool{}, Stats: map[string]int{}}
+	return &World{remMemo: map[string]*remInfo{}, failSeen: map[string]bool{}, Stats: map[string]int{}, maxSteps: MaxSteps}
 }
 
 func TestFormArithmetic(t *testing.T) {
